@@ -262,18 +262,32 @@ def run_cbmc(goto, unwind, unwindset, timeout_s, mem_gb, log, memsafe=True, extr
     if m:
         res["steps"] = int(m.group(1))
     if results is None:
+        try:
+            with open(log, "w") as lf:
+                lf.write("$ " + " ".join(cmd) + "\n" + txt[-20000:])
+        except Exception:
+            pass
         if "out of memory" in txt.lower() or "bad_alloc" in txt or rc in (-9, -6, 134, 137):
             res["status"] = "OOM"
         else:
             res["status"] = "ERROR"
             res["error"] = alltxt[-600:] if alltxt else txt[-600:]
         return res
+    # compact the log: cbmc's json-ui carries a full trace per failed property (hundreds of MB)
+    try:
+        slim = {"cmd": " ".join(cmd), "cProverStatus": cstatus,
+                "messages_tail": msgs[-40:],
+                "result": [{k: v for k, v in r.items() if k != "trace"} for r in results]}
+        with open(log, "w") as lf:
+            json.dump(slim, lf, indent=0)
+    except Exception:
+        pass
     c = classify(results)
     res.update(checked=c["checked"], cover_sat=len(c["cover_sat"]), cover_unsat=c["cover_unsat"],
                unwind_fail=c["unwind_fail"], violations=c["violations"],
                unsupported_fail=c["unsupported_fail"], n_properties=len(results))
     if c.get("undecided") or cstatus == "error":
-        res["status"] = "OOM" if ("out of memory" in txt.lower() or "bad_alloc" in txt) else "ERROR"
+        res["status"] = "OOM" if ("out of memory" in alltxt.lower() or "bad_alloc" in alltxt) else "ERROR"
         res["error"] = "%d properties undecided by cbmc (cProverStatus=%s)" % (c.get("undecided", 0), cstatus)
     elif c["violations"] or c["unsupported_fail"]:
         res["status"] = "FAILED"
